@@ -10,3 +10,13 @@ claim('C15',
       'Trusted: the frozen column convention and accepted copy idioms listed in dsa/rules/c15.py; the ast '
       'parser. Numerical behaviour is not decided.',
       'DESIGN.md 4 C15')
+claim('C14',
+      'interval-shape + accumulation/homogeneity + key-set agreement + who-may-write (ast, CFG)',
+      'Static conformance to the structural necessary conditions of C14 in DESIGN 4.14: half-open grid '
+      'interval with counting, += accumulation of every component from its own increment function with '
+      'degree 1 (friction, gravity) / 0 (grid) in dz, agreement of the component key sets across region '
+      'classes, Assembly and tables, single writer of the static friction factor / flow split, finished '
+      'regions added exactly once. Exhaustive over the sites in the parsed tree; closed-form equality is '
+      'not decided.',
+      'Trusted: ast parser; accepted forms enumerated in dsa/rules/c14.py. Numerical values not decided.',
+      'DESIGN.md 4 C14')
